@@ -229,7 +229,7 @@ def run_enum(shard: dict, res: Res) -> None:
                                 res.violate("context-dependent-encoding", f"`{stmt}` after `{prefix}` assembled to {got[len(pbytes) // 2:].hex()}, the ISA says {(own or b'').hex() or 'undefined'}",
                                             {"m": m, "shape": "imm", "suffix": suffix, "value": v, "stmt": stmt, "src": f"*=0x008000\n{prefix}\n{stmt}\n"})
         # an operand that merely starts with a parenthesised term is still a plain (direct / immediate) operand
-        for shape in ("dir", "dir_x", "dir_y", "imm"):
+        for shape in ("dir", "dir_x", "dir_y", "imm", "ind", "ind_y", "lng", "x_ind"):      # (inside ( ) / [ ] as well: `lda ((0x10)+1)` is indirect)
             for suffix in ("", "b", "w"):
                 for text, v in (("(0x10)+1", 0x11), ("(0x1000)+(0x20)", 0x1020), ("(0x10)*2", 0x20), ("(0x8)<<4|1", 0x81), ("(1+2)*3", 9)):
                     stmt = render(m, shape, suffix, text, "lower")
